@@ -16,6 +16,8 @@ for d in sorted(glob.glob(os.path.join(V, 'seeded', 'C*-*')), key=key):
         if cr.get('caught') and 'no-failing-input-found' in cr.get('violation_line', ''): res = 'caught (no-failing-input-found): ' + res[8:]
     else:
         res = ' '.join(str(cr).replace('|', '/').split())[:200]
+    if m.get('caught_by_other_check') and res.startswith('MISSED'):
+        o = m['caught_by_other_check']; res = f"missed by {m['property']}; caught by the {o['property']} check: " + ' '.join(o['message'].replace('|', '/').split())[:120]
     files = ', '.join(os.path.basename(f) for f in m.get('files_changed', [])) or '_reaction.py'
     print(f"| {os.path.basename(d)} | {files} | {br} | {res} |")
 
